@@ -177,7 +177,10 @@ def gen_history(rng, idx, base, opts):
                 elif k < 0.62 and prodnodes:
                     ops.append({"op": "del", "n": rng.choice(prodnodes)})
                 elif k < 0.70 and prodnodes:
-                    ops.append({"op": "set", "n": rng.choice(prodnodes), "c": fresh()})   # tamper
+                    pn = rng.choice(prodnodes)
+                    c = fresh()
+                    ops.append({"op": "set", "n": pn, "c": c})   # tamper (a later "revert" may write the same content again)
+                    hist_vals.setdefault(pn, []).append(c)
                 elif k < 0.80:
                     m = rng.choice(sorted({t["module"] for t in tasks}))
                     bump = rng.choice([1, 1, -1])
